@@ -1,12 +1,12 @@
 package main
 
 import (
-	"fmt"
-	"regexp"
 	"bytes"
+	"fmt"
 	"math/rand"
 	"os"
 	"path/filepath"
+	"regexp"
 	"sort"
 	"strings"
 )
@@ -346,6 +346,24 @@ func invocationCases(r *rand.Rand, n int) []Case {
 				pos = []string{ra.arg, ra.arg}
 			default:
 				pos = []string{""}
+			}
+			if cmd == "renumber" && len(pos) == 1 && chance(r, 0.8) {
+				// the argument names a test file by rule id or file name, with or without (any) extension
+				var tests []string
+				for path := range ct.t {
+					if strings.HasPrefix(path, "tests/regression/tests/") && !strings.HasSuffix(path, "/") {
+						tests = append(tests, path[strings.LastIndex(path, "/")+1:])
+					}
+				}
+				sort.Strings(tests)
+				if len(tests) > 0 {
+					b := pick(r, tests)
+					stem := b
+					if i := strings.LastIndex(b, "."); i >= 0 {
+						stem = b[:i]
+					}
+					pos = []string{pick(r, []string{b, stem, stem + ".yml", stem + ".", stem + ".txt", stem[:len(stem)/2], ".yaml", stem + ".yaml.bak", b + ".yaml"})}
+				}
 			}
 			if cmd == "generate" && len(pos) == 1 && pos[0] == "-" {
 				pos = []string{ra.arg}
